@@ -128,6 +128,9 @@ expr_harness!(c01_a3t_expr_named, 5, 2);
 expr_harness!(c01_a3t_expr_array_access, 6, 3);
 expr_harness!(c01_a3t_expr_nested, 7, 5);
 
+/// NOT REGISTERED (no verdict): every Statement shape below, including the lean ones with leaf children only
+/// (`a := 1`, `f(1)`, `if (1) ; else ;`, `while (1) ;`, `{ ; <error> }`), timed out (420-600 s): the 7-arm
+/// Statement dispatch times the Expression/Variable families is unrolled in every arm.  Kept for reference.
 /// Statement shapes: assignment `a[1] := 1 + 1`, call `f(1, -1)`, `if (1 < 1) a := 1 else ;`,
 /// `while (1) { a := 1 }`
 fn assignment(with_index: bool) -> Statement {
